@@ -225,7 +225,9 @@ def run(ctx):
         del os.environ['VERIF_C15_DRAIN_S']
     ex = ctx.cov.get('replay_extra', {}).get('gen-cancel', {})
     ctx.log(f'environment-dependent cases: {ex}')
-    if not ex.get('wait_failure_judged') or not ex.get('command_destination_judged'):
+    # (only a clean run must show that these cases were really judged: on a tree with violations the cases that fail
+    # are not counted as judged, and a violation must never be turned into a machinery error)
+    if not ctx.failures and (not ex.get('wait_failure_judged') or not ex.get('command_destination_judged')):
         raise MachineryError(f'no case with a failing wait / a command destination was judged (all skipped?): {ex}')
     bad = [f for f in ctx.failures if f['sig'].startswith('C15-MODEL')]
     if bad:
